@@ -15,7 +15,7 @@ pub const FLOORS: &[&str] = &[
     "pause_at_directive_break", "pause_at_runtime_break", "revisit_pause", "self_loop_revisit",
     "two_loop_revisit", "removed_breakpoint_passed", "resume:continue", "resume:step", "resume:si",
     "resume:so", "loc:abs", "loc:label", "loc:pc", "break_before_first", "break_after_last",
-    "break_doubled", "nondefault_origin", "trace_invariant_checked",
+    "break_doubled", "nondefault_origin", "trace_invariant_checked", "origin_below_statement_count",
 ];
 
 struct Loopy {
@@ -247,7 +247,15 @@ fn placement_case(seed: u64, i: u64) -> CaseOut {
     let mut out = CaseOut::new();
     let mut rng = Rng::for_case(seed, "C11p", i);
     let stack = rng.bool();
-    let origin = if rng.bool() { Some(gen_origin(&mut rng).min(0xF000)) } else { None };
+    let origin = match rng.below(6) {
+        0 | 1 => None,
+        // origins smaller than the program: a statement index can then be >= the origin
+        2 => Some(1 + rng.below(12) as i32),
+        _ => Some(gen_origin(&mut rng).clamp(1, 0xF000)),
+    };
+    if matches!(origin, Some(v) if v < 16) {
+        out.class("origin_below_statement_count");
+    }
     let o = ProgOpts {
         stack,
         origin,
